@@ -13,6 +13,7 @@ Python strings for text.
  10 deprecation            -> [1, text, doc] | [0] (ValueError)  + rendered html of the real reST pipeline
  13 html2stan(encode text) -> as 8, the re-parse path of signatures / colourised values
  14 node2stan over a docutils inline/Text node holding text with classes -> [1, html, stan] | [0]
+ 15 node2stan(children of a reference: [[0, text] Text | [1, text, classes] inline ...]) -> [1, stan] | [0]
 """
 import ast, json, re, sys
 import xml.parsers.expat as expat
@@ -232,6 +233,26 @@ def run_case(case):
         except UnicodeEncodeError:
             return [3, html]
         return [1, html, canon_stan(st)]
+    if fn == 15:
+        # node2stan over the CHILDREN of a reference (the label of a cross-reference): Text leaves and inline nodes
+        doc = utils.new_document('c10')
+        para = nodes.paragraph('', '')
+        doc += para
+        ref = nodes.title_reference('', '')
+        para += ref
+        for kind, text, classes in arg:
+            if kind == 0:
+                ref += nodes.Text(text)
+            else:
+                ref += nodes.inline('', text, classes=list(classes))
+        from xml.sax import SAXParseException
+        try:
+            st = node2stan.node2stan(ref.children, None)
+        except SAXParseException:
+            return [0]
+        except UnicodeEncodeError:
+            return [3]
+        return [1, canon_stan(st)]
     raise ValueError('unknown fn %r' % fn)
 
 
